@@ -1627,7 +1627,7 @@ int main(int argc, char** argv) {
     // the depth of this search is lowered and the bound that is reported says so.
     const int NI = 7;
     const int order[NI] = {6, 5, 2, 4, 0, 3, 1};
-    const double WEIGHT[NI] = {18.6, 18.0, 3.1, 8.6, 4.6, 1.0, 18.5};  // indexed by init (init6: extrapolated from depth 4)
+    const double WEIGHT[NI] = {20.8, 18.0, 3.1, 8.6, 4.6, 1.0, 19.7};  // indexed by init (init6: extrapolated from depth 4)
     auto req = [&](int init) { return init == 6 ? depth6 : depth; };
     const double GROWTH = 7.0;
     double rate = 0, done_weight = 0, done_time = 0;  // seconds per weight unit
